@@ -14,6 +14,7 @@ import (
 	configapi "github.com/onosproject/onos-api/go/onos/config/v2"
 
 	"github.com/onosproject/onos-config/pkg/utils"
+	pathutils "github.com/onosproject/onos-config/pkg/utils/path"
 )
 
 const (
@@ -266,24 +267,24 @@ func PrunePathValues(paths []*configapi.PathValue, leaveTopDeletedPaths bool) []
 	})
 
 	prunedPaths := make([]*configapi.PathValue, 0, len(sortedPaths))
-	deletingPrefix := ""
+	var deletedSubtrees []string
+pruning:
 	for _, pv := range sortedPaths {
-		// If this path is marked as deleted and we're already not deleting this subtree, start deleting
-		if pv.Deleted && (len(deletingPrefix) == 0 || !strings.HasPrefix(pv.Path, deletingPrefix)) {
-			deletingPrefix = pv.Path
-
+		// Skip everything beneath a node that is already being deleted (an ancestor sorts before its descendants)
+		for _, deleted := range deletedSubtrees {
+			if pathutils.IsDescendantPath(pv.Path, deleted) {
+				continue pruning
+			}
+		}
+		if pv.Deleted {
+			deletedSubtrees = append(deletedSubtrees, pv.Path)
 			// If we're asked to leave behind the top deleted node of a sub-tree, add it here
 			if leaveTopDeletedPaths {
 				prunedPaths = append(prunedPaths, pv)
 			}
+			continue
 		}
-
-		// If we're not currently deleting or if the node is not part of the sub-tree, add it and cancel deletion
-		// since we have left the sub-tree.
-		if len(deletingPrefix) == 0 || !strings.HasPrefix(pv.Path, deletingPrefix) {
-			prunedPaths = append(prunedPaths, pv)
-			deletingPrefix = ""
-		}
+		prunedPaths = append(prunedPaths, pv)
 	}
 
 	return prunedPaths
